@@ -1699,21 +1699,21 @@ package asm
 //@ func (*funcGen).newAtomicRMWInst
 //@   props C06
 //@   requires fgen != nil && fgen.gen != nil && old != nil
-//@   requires typeis(tyOf(old.Dst().Typ()), "*types.PointerType")
+//@   assumed requires typeis(tyOf(old.Dst().Typ()), "*types.PointerType")
 //@   assigns nothing
 //@   ensures result1 == nil ==> result0 != nil && fresh(result0) && result0.LocalIdent == ident && teq(result0.Typ, cast(tyOf(old.Dst().Typ()), "*types.PointerType").ElemType)
 //@   ensures result1 != nil ==> result0 == nil
 //@ func (*funcGen).newICmpInst
 //@   props C06
 //@   requires fgen != nil && fgen.gen != nil && old != nil && types.I1 != nil && types.I1.BitSize == 1
-//@   requires (typeis(tyOf(old.X().Typ()), "*types.IntType") || typeis(tyOf(old.X().Typ()), "*types.PointerType") || isVec(tyOf(old.X().Typ())))
+//@   assumed requires (typeis(tyOf(old.X().Typ()), "*types.IntType") || typeis(tyOf(old.X().Typ()), "*types.PointerType") || isVec(tyOf(old.X().Typ())))
 //@   assigns nothing
 //@   ensures result1 == nil ==> result0 != nil && fresh(result0) && result0.LocalIdent == ident && cmpTy(result0.Typ, tyOf(old.X().Typ()))
 //@   ensures result1 != nil ==> result0 == nil
 //@ func (*funcGen).newFCmpInst
 //@   props C06
 //@   requires fgen != nil && fgen.gen != nil && old != nil && types.I1 != nil && types.I1.BitSize == 1
-//@   requires (typeis(tyOf(old.X().Typ()), "*types.FloatType") || isVec(tyOf(old.X().Typ())))
+//@   assumed requires (typeis(tyOf(old.X().Typ()), "*types.FloatType") || isVec(tyOf(old.X().Typ())))
 //@   assigns nothing
 //@   ensures result1 == nil ==> result0 != nil && fresh(result0) && result0.LocalIdent == ident && cmpTy(result0.Typ, tyOf(old.X().Typ()))
 //@   ensures result1 != nil ==> result0 == nil
@@ -1764,21 +1764,21 @@ package asm
 //@ func (*funcGen).newExtractElementInst
 //@   props C06
 //@   requires fgen != nil && fgen.gen != nil && old != nil
-//@   requires isVec(tyOf(old.X().Typ()))
+//@   assumed requires isVec(tyOf(old.X().Typ()))
 //@   assigns nothing
 //@   ensures result1 == nil ==> result0 != nil && fresh(result0) && result0.LocalIdent == ident && teq(result0.Typ, velem(tyOf(old.X().Typ())))
 //@   ensures result1 != nil ==> result0 == nil
 //@ func (*funcGen).newInsertElementInst
 //@   props C06
 //@   requires fgen != nil && fgen.gen != nil && old != nil
-//@   requires isVec(tyOf(old.X().Typ()))
+//@   assumed requires isVec(tyOf(old.X().Typ()))
 //@   assigns nothing
 //@   ensures result1 == nil ==> result0 != nil && fresh(result0) && result0.LocalIdent == ident && result0.Typ != nil && teq(boxed(result0.Typ), tyOf(old.X().Typ()))
 //@   ensures result1 != nil ==> result0 == nil
 //@ func (*funcGen).newShuffleVectorInst
 //@   props C06
 //@   requires fgen != nil && fgen.gen != nil && old != nil
-//@   requires isVec(tyOf(old.X().Typ())) && isVec(tyOf(old.Mask().Typ()))
+//@   assumed requires isVec(tyOf(old.X().Typ())) && isVec(tyOf(old.Mask().Typ()))
 //@   assigns nothing
 //@   ensures result1 == nil ==> result0 != nil && fresh(result0) && result0.LocalIdent == ident && result0.Typ != nil && result0.Typ.Len == vlen(tyOf(old.Mask().Typ())) && result0.Typ.Scalable == vscal(tyOf(old.Mask().Typ())) && teq(result0.Typ.ElemType, velem(tyOf(old.X().Typ())))
 //@   ensures result1 != nil ==> result0 == nil
@@ -2169,3 +2169,66 @@ package asm
 //@   ensures forall(k, 0, len(olds), result[k] == enum.OverflowFlagFromString(olds[k].Text()))
 //@   loop 0: invariant 0 <= range_i && range_i <= len(olds) && len(flags) == len(olds) && fresh(flags)
 //@   loop 0: invariant forall(k, 0, range_i, flags[k] == enum.OverflowFlagFromString(olds[k].Text()))
+//@ # ---------------------------------------------------------------- C04 / C08 (scaffolds of a function body) ---
+//@ # The two constructors whose result type needs the walk into a translated type (no contract on the type: see
+//@ # DESIGN 10.7): assumed to build a new instruction carrying the identifier and to write nothing else.
+//@ func (*funcGen).newExtractValueInst
+//@   trusted
+//@   assigns nothing
+//@   ensures result1 == nil ==> result0 != nil && fresh(result0) && result0.LocalIdent == ident
+//@   ensures result1 != nil ==> result0 == nil
+//@ func (*funcGen).newGetElementPtrInst
+//@   trusted
+//@   assigns nothing
+//@   ensures result1 == nil ==> result0 != nil && fresh(result0) && result0.LocalIdent == ident
+//@   ensures result1 != nil ==> result0 == nil
+//@ # every written instruction / terminator gets a new scaffold object of its own kind
+//@ macro ikind(r ir.Instruction, a ast.LlvmNode) bool = (typeis(a, "*ast.FNegInst") ==> typeis(r, "*ir.InstFNeg")) && (typeis(a, "*ast.AddInst") ==> typeis(r, "*ir.InstAdd")) && (typeis(a, "*ast.FAddInst") ==> typeis(r, "*ir.InstFAdd")) && (typeis(a, "*ast.SubInst") ==> typeis(r, "*ir.InstSub")) && (typeis(a, "*ast.FSubInst") ==> typeis(r, "*ir.InstFSub")) && (typeis(a, "*ast.MulInst") ==> typeis(r, "*ir.InstMul")) && (typeis(a, "*ast.FMulInst") ==> typeis(r, "*ir.InstFMul")) && (typeis(a, "*ast.UDivInst") ==> typeis(r, "*ir.InstUDiv")) && (typeis(a, "*ast.SDivInst") ==> typeis(r, "*ir.InstSDiv")) && (typeis(a, "*ast.FDivInst") ==> typeis(r, "*ir.InstFDiv")) && (typeis(a, "*ast.URemInst") ==> typeis(r, "*ir.InstURem")) && (typeis(a, "*ast.SRemInst") ==> typeis(r, "*ir.InstSRem")) && (typeis(a, "*ast.FRemInst") ==> typeis(r, "*ir.InstFRem")) && (typeis(a, "*ast.ShlInst") ==> typeis(r, "*ir.InstShl")) && (typeis(a, "*ast.LShrInst") ==> typeis(r, "*ir.InstLShr")) && (typeis(a, "*ast.AShrInst") ==> typeis(r, "*ir.InstAShr")) && (typeis(a, "*ast.AndInst") ==> typeis(r, "*ir.InstAnd")) && (typeis(a, "*ast.OrInst") ==> typeis(r, "*ir.InstOr")) && (typeis(a, "*ast.XorInst") ==> typeis(r, "*ir.InstXor")) && (typeis(a, "*ast.ExtractElementInst") ==> typeis(r, "*ir.InstExtractElement")) && (typeis(a, "*ast.InsertElementInst") ==> typeis(r, "*ir.InstInsertElement")) && (typeis(a, "*ast.ShuffleVectorInst") ==> typeis(r, "*ir.InstShuffleVector")) && (typeis(a, "*ast.ExtractValueInst") ==> typeis(r, "*ir.InstExtractValue")) && (typeis(a, "*ast.InsertValueInst") ==> typeis(r, "*ir.InstInsertValue")) && (typeis(a, "*ast.AllocaInst") ==> typeis(r, "*ir.InstAlloca")) && (typeis(a, "*ast.LoadInst") ==> typeis(r, "*ir.InstLoad")) && (typeis(a, "*ast.CmpXchgInst") ==> typeis(r, "*ir.InstCmpXchg")) && (typeis(a, "*ast.AtomicRMWInst") ==> typeis(r, "*ir.InstAtomicRMW")) && (typeis(a, "*ast.GetElementPtrInst") ==> typeis(r, "*ir.InstGetElementPtr")) && (typeis(a, "*ast.TruncInst") ==> typeis(r, "*ir.InstTrunc")) && (typeis(a, "*ast.ZExtInst") ==> typeis(r, "*ir.InstZExt")) && (typeis(a, "*ast.SExtInst") ==> typeis(r, "*ir.InstSExt")) && (typeis(a, "*ast.FPTruncInst") ==> typeis(r, "*ir.InstFPTrunc")) && (typeis(a, "*ast.FPExtInst") ==> typeis(r, "*ir.InstFPExt")) && (typeis(a, "*ast.FPToUIInst") ==> typeis(r, "*ir.InstFPToUI")) && (typeis(a, "*ast.FPToSIInst") ==> typeis(r, "*ir.InstFPToSI")) && (typeis(a, "*ast.UIToFPInst") ==> typeis(r, "*ir.InstUIToFP")) && (typeis(a, "*ast.SIToFPInst") ==> typeis(r, "*ir.InstSIToFP")) && (typeis(a, "*ast.PtrToIntInst") ==> typeis(r, "*ir.InstPtrToInt")) && (typeis(a, "*ast.IntToPtrInst") ==> typeis(r, "*ir.InstIntToPtr")) && (typeis(a, "*ast.BitCastInst") ==> typeis(r, "*ir.InstBitCast")) && (typeis(a, "*ast.AddrSpaceCastInst") ==> typeis(r, "*ir.InstAddrSpaceCast")) && (typeis(a, "*ast.ICmpInst") ==> typeis(r, "*ir.InstICmp")) && (typeis(a, "*ast.FCmpInst") ==> typeis(r, "*ir.InstFCmp")) && (typeis(a, "*ast.PhiInst") ==> typeis(r, "*ir.InstPhi")) && (typeis(a, "*ast.SelectInst") ==> typeis(r, "*ir.InstSelect")) && (typeis(a, "*ast.FreezeInst") ==> typeis(r, "*ir.InstFreeze")) && (typeis(a, "*ast.CallInst") ==> typeis(r, "*ir.InstCall")) && (typeis(a, "*ast.VAArgInst") ==> typeis(r, "*ir.InstVAArg")) && (typeis(a, "*ast.LandingPadInst") ==> typeis(r, "*ir.InstLandingPad"))
+//@ macro inode(a ast.LlvmNode) bool = (typeis(a, "*ast.FNegInst") ==> cast(a, "*ast.FNegInst") != nil) && (typeis(a, "*ast.AddInst") ==> cast(a, "*ast.AddInst") != nil) && (typeis(a, "*ast.FAddInst") ==> cast(a, "*ast.FAddInst") != nil) && (typeis(a, "*ast.SubInst") ==> cast(a, "*ast.SubInst") != nil) && (typeis(a, "*ast.FSubInst") ==> cast(a, "*ast.FSubInst") != nil) && (typeis(a, "*ast.MulInst") ==> cast(a, "*ast.MulInst") != nil) && (typeis(a, "*ast.FMulInst") ==> cast(a, "*ast.FMulInst") != nil) && (typeis(a, "*ast.UDivInst") ==> cast(a, "*ast.UDivInst") != nil) && (typeis(a, "*ast.SDivInst") ==> cast(a, "*ast.SDivInst") != nil) && (typeis(a, "*ast.FDivInst") ==> cast(a, "*ast.FDivInst") != nil) && (typeis(a, "*ast.URemInst") ==> cast(a, "*ast.URemInst") != nil) && (typeis(a, "*ast.SRemInst") ==> cast(a, "*ast.SRemInst") != nil) && (typeis(a, "*ast.FRemInst") ==> cast(a, "*ast.FRemInst") != nil) && (typeis(a, "*ast.ShlInst") ==> cast(a, "*ast.ShlInst") != nil) && (typeis(a, "*ast.LShrInst") ==> cast(a, "*ast.LShrInst") != nil) && (typeis(a, "*ast.AShrInst") ==> cast(a, "*ast.AShrInst") != nil) && (typeis(a, "*ast.AndInst") ==> cast(a, "*ast.AndInst") != nil) && (typeis(a, "*ast.OrInst") ==> cast(a, "*ast.OrInst") != nil) && (typeis(a, "*ast.XorInst") ==> cast(a, "*ast.XorInst") != nil) && (typeis(a, "*ast.ExtractElementInst") ==> cast(a, "*ast.ExtractElementInst") != nil) && (typeis(a, "*ast.InsertElementInst") ==> cast(a, "*ast.InsertElementInst") != nil) && (typeis(a, "*ast.ShuffleVectorInst") ==> cast(a, "*ast.ShuffleVectorInst") != nil) && (typeis(a, "*ast.ExtractValueInst") ==> cast(a, "*ast.ExtractValueInst") != nil) && (typeis(a, "*ast.InsertValueInst") ==> cast(a, "*ast.InsertValueInst") != nil) && (typeis(a, "*ast.AllocaInst") ==> cast(a, "*ast.AllocaInst") != nil) && (typeis(a, "*ast.LoadInst") ==> cast(a, "*ast.LoadInst") != nil) && (typeis(a, "*ast.CmpXchgInst") ==> cast(a, "*ast.CmpXchgInst") != nil) && (typeis(a, "*ast.AtomicRMWInst") ==> cast(a, "*ast.AtomicRMWInst") != nil) && (typeis(a, "*ast.GetElementPtrInst") ==> cast(a, "*ast.GetElementPtrInst") != nil) && (typeis(a, "*ast.TruncInst") ==> cast(a, "*ast.TruncInst") != nil) && (typeis(a, "*ast.ZExtInst") ==> cast(a, "*ast.ZExtInst") != nil) && (typeis(a, "*ast.SExtInst") ==> cast(a, "*ast.SExtInst") != nil) && (typeis(a, "*ast.FPTruncInst") ==> cast(a, "*ast.FPTruncInst") != nil) && (typeis(a, "*ast.FPExtInst") ==> cast(a, "*ast.FPExtInst") != nil) && (typeis(a, "*ast.FPToUIInst") ==> cast(a, "*ast.FPToUIInst") != nil) && (typeis(a, "*ast.FPToSIInst") ==> cast(a, "*ast.FPToSIInst") != nil) && (typeis(a, "*ast.UIToFPInst") ==> cast(a, "*ast.UIToFPInst") != nil) && (typeis(a, "*ast.SIToFPInst") ==> cast(a, "*ast.SIToFPInst") != nil) && (typeis(a, "*ast.PtrToIntInst") ==> cast(a, "*ast.PtrToIntInst") != nil) && (typeis(a, "*ast.IntToPtrInst") ==> cast(a, "*ast.IntToPtrInst") != nil) && (typeis(a, "*ast.BitCastInst") ==> cast(a, "*ast.BitCastInst") != nil) && (typeis(a, "*ast.AddrSpaceCastInst") ==> cast(a, "*ast.AddrSpaceCastInst") != nil) && (typeis(a, "*ast.ICmpInst") ==> cast(a, "*ast.ICmpInst") != nil) && (typeis(a, "*ast.FCmpInst") ==> cast(a, "*ast.FCmpInst") != nil) && (typeis(a, "*ast.PhiInst") ==> cast(a, "*ast.PhiInst") != nil) && (typeis(a, "*ast.SelectInst") ==> cast(a, "*ast.SelectInst") != nil) && (typeis(a, "*ast.FreezeInst") ==> cast(a, "*ast.FreezeInst") != nil) && (typeis(a, "*ast.CallInst") ==> cast(a, "*ast.CallInst") != nil) && (typeis(a, "*ast.VAArgInst") ==> cast(a, "*ast.VAArgInst") != nil) && (typeis(a, "*ast.LandingPadInst") ==> cast(a, "*ast.LandingPadInst") != nil)
+//@ macro tkindv(r ir.Terminator, a ast.LlvmNode) bool = (typeis(a, "*ast.InvokeTerm") ==> typeis(r, "*ir.TermInvoke")) && (typeis(a, "*ast.CallBrTerm") ==> typeis(r, "*ir.TermCallBr")) && (typeis(a, "*ast.CatchSwitchTerm") ==> typeis(r, "*ir.TermCatchSwitch"))
+//@ macro tnodev(a ast.LlvmNode) bool = (typeis(a, "*ast.InvokeTerm") ==> cast(a, "*ast.InvokeTerm") != nil) && (typeis(a, "*ast.CallBrTerm") ==> cast(a, "*ast.CallBrTerm") != nil) && (typeis(a, "*ast.CatchSwitchTerm") ==> cast(a, "*ast.CatchSwitchTerm") != nil)
+//@ func (*funcGen).newValueInst
+//@   props C04 C08
+//@   partial
+//@   requires fgen != nil && fgen.gen != nil && types.I1 != nil && types.I1.BitSize == 1
+//@   assumed requires inode(old)
+//@   assigns caches
+//@   ensures result1 == nil ==> ptrof(result0) != 0 && fresh(ptrof(result0)) && ikind(result0, old)
+//@ func (*funcGen).newValueTerm
+//@   props C04 C08
+//@   partial
+//@   requires fgen != nil && fgen.gen != nil
+//@   assumed requires tnodev(old)
+//@   assigns nothing
+//@   ensures result1 == nil ==> ptrof(result0) != 0 && fresh(ptrof(result0)) && tkindv(result0, old)
+//@ macro ikindp(r ir.Instruction, a ast.LlvmNode) bool = (typeis(a, "*ast.StoreInst") ==> typeis(r, "*ir.InstStore")) && (typeis(a, "*ast.FenceInst") ==> typeis(r, "*ir.InstFence"))
+//@ macro tkindp(r ir.Terminator, a ast.LlvmNode) bool = (typeis(a, "*ast.RetTerm") ==> typeis(r, "*ir.TermRet")) && (typeis(a, "*ast.BrTerm") ==> typeis(r, "*ir.TermBr")) && (typeis(a, "*ast.CondBrTerm") ==> typeis(r, "*ir.TermCondBr")) && (typeis(a, "*ast.SwitchTerm") ==> typeis(r, "*ir.TermSwitch")) && (typeis(a, "*ast.IndirectBrTerm") ==> typeis(r, "*ir.TermIndirectBr")) && (typeis(a, "*ast.ResumeTerm") ==> typeis(r, "*ir.TermResume")) && (typeis(a, "*ast.CatchRetTerm") ==> typeis(r, "*ir.TermCatchRet")) && (typeis(a, "*ast.CleanupRetTerm") ==> typeis(r, "*ir.TermCleanupRet")) && (typeis(a, "*ast.UnreachableTerm") ==> typeis(r, "*ir.TermUnreachable"))
+//@ func (*funcGen).newInst
+//@   props C04 C08
+//@   partial
+//@   requires fgen != nil && fgen.gen != nil && types.I1 != nil && types.I1.BitSize == 1
+//@   assumed requires typeis(old, "*ast.LocalDefInst") ==> cast(old, "*ast.LocalDefInst") != nil
+//@   assigns caches
+//@   ensures result1 == nil ==> ptrof(result0) != 0 && fresh(ptrof(result0)) && ikindp(result0, old)
+//@ func (*funcGen).newTerm
+//@   props C04 C08
+//@   partial
+//@   requires fgen != nil && fgen.gen != nil
+//@   assumed requires typeis(old, "*ast.LocalDefTerm") ==> cast(old, "*ast.LocalDefTerm") != nil
+//@   assigns nothing
+//@   ensures result1 == nil ==> ptrof(result0) != 0 && fresh(ptrof(result0)) && tkindp(result0, old)
+//@ # newLocals: one new block per written block, in order; the block carries its written label (none: unnamed), its parent
+//@ # is the function, it has one scaffold per written instruction and a terminator scaffold
+//@ macro bscaf(b *ir.Block, a ast.BasicBlock, f *ir.Func) bool = b != nil && b.Parent == f && len(b.Insts) == len(a.Insts()) && b.Term != nil && (res1(a.Name()) ==> b.LocalIdent == labelIdent(res0(a.Name())))
+//@ func (*funcGen).newLocals
+//@   props C04 C08
+//@   partial
+//@   requires fgen != nil && fgen.gen != nil && fgen.f != nil && types.I1 != nil && types.I1.BitSize == 1
+//@   assigns fgen.f.Blocks, caches
+//@   ensures result == nil ==> len(fgen.f.Blocks) == len(oldBlocks) && forall(k, 0, len(oldBlocks), bscaf(fgen.f.Blocks[k], oldBlocks[k], fgen.f))
+//@   loop 0: invariant 0 <= range_i && range_i <= len(oldBlocks) && f == fgen.f && f != nil && len(f.Blocks) == len(oldBlocks) && fresh(f.Blocks)
+//@   loop 0: invariant forall(k, 0, range_i, bscaf(f.Blocks[k], oldBlocks[k], f) && allocated(f.Blocks[k]))
+//@   loop 1: invariant 0 <= range_at0 && range_at0 < len(oldBlocks) && f == fgen.f && f != nil && len(f.Blocks) == len(oldBlocks) && fresh(f.Blocks)
+//@   loop 1: invariant forall(k, 0, range_at0, bscaf(f.Blocks[k], oldBlocks[k], f) && allocated(f.Blocks[k]))
+//@   loop 1: invariant block != nil && fresh(block) && 0 <= range_i && range_i <= len(oldInsts) && len(block.Insts) == len(oldInsts) && fresh(block.Insts) && len(oldInsts) == len(oldBlocks[range_at0].Insts())
+//@   loop 1: invariant res1(oldBlocks[range_at0].Name()) ==> block.LocalIdent == labelIdent(res0(oldBlocks[range_at0].Name()))
